@@ -104,7 +104,8 @@ def _views(ctx, prog):
     if cl.call_sites(r"PendingConnection::is_for_same_remote_as$"):
         h = S.nbody(ctx, r"pool::PendingConnection::is_for_same_remote_as$")
         rs = [render(e) for e in S.ret_exprs(h)]
-        ctx.ob("views", "is_for_same_remote_as compares the stored expected peer", rs == ["<std::option::Option as std::cmp::PartialEq>::eq(self.%s, std::option::Option::Some{0: p2})" % pfield],
+        ctx.ob("views", "is_for_same_remote_as compares the stored expected peer", rs in (["<std::option::Option as std::cmp::PartialEq>::eq(self.%s, std::option::Option::Some{0: p2})" % pfield],
+                                                                                                   ["<std::option::Option as std::cmp::PartialEq>::eq(std::option::Option::Some{0: p2}, self.%s)" % pfield]),
                "%s:%d" % (h.file, h.line), str(rs)[:200])
 
 
